@@ -24,6 +24,9 @@ _UF = {}
 LOG = []  # (alg, input items) of every symbolic application on the current path (harness may inspect)
 
 
+NONZERO_DIGESTS = False
+
+
 def _real_new(alg, data=b""):
     if alg == "ripemd160":
         try:
@@ -47,6 +50,11 @@ def uf_apply(tag, items, out_len):
     ex = core.CUR
     if ex is not None:
         ex.uf_apps.append((tag, list(items)))
+        if NONZERO_DIGESTS and tag == "sha256":
+            # environment assumption a harness may switch on (and must list): no SHA-256 digest is all-zero (no such pre-image is known)
+            c = r != z3.BitVecVal(0, 8 * out_len)
+            if not any(c.eq(x) for x in ex.pc[-64:]):
+                ex.pc.append(c)
     app_id = len(_seq.UF_APPS)
     _seq.UF_APPS.append((tag, list(items), out_len))
     out = []
